@@ -54,6 +54,20 @@ static void handle(size_t nw, char **w) {
 		sm3_finish(&c, d); puthex(d, 32);
 		free(d); free(st.p); free_chunks(ch, k);
 	}
+	else if (!strcmp(w[0], "hashst") && nw == 5) {       /* any digest: install counter + chaining state via the public struct */
+		const char *alg = w[1]; unsigned long long nb = strtoull(w[2], NULL, 10);
+		buf_t st = hex2buf(w[3]); size_t k = split_chunks(w[4], ch, MAXC), i; uint8_t *d = malloc(64); size_t dl = 0;
+#define LOAD32(arr, n) for (i = 0; i < (n); i++) (arr)[i] = ((uint32_t)st.p[4*i] << 24) | ((uint32_t)st.p[4*i+1] << 16) | ((uint32_t)st.p[4*i+2] << 8) | st.p[4*i+3]
+#define LOAD64(arr, n) for (i = 0; i < (n); i++) { size_t j; uint64_t v = 0; for (j = 0; j < 8; j++) v = (v << 8) | st.p[8*i+j]; (arr)[i] = v; }
+		if (!strcmp(alg, "sm3")) { SM3_CTX c; sm3_init(&c); c.nblocks = nb; LOAD32(c.digest, 8); for (i = 0; i < k; i++) sm3_update(&c, ch[i].p, ch[i].n); sm3_finish(&c, d); dl = 32; }
+		else if (!strcmp(alg, "sha1")) { SHA1_CTX c; sha1_init(&c); c.nblocks = nb; LOAD32(c.state, 5); for (i = 0; i < k; i++) sha1_update(&c, ch[i].p, ch[i].n); sha1_finish(&c, d); dl = 20; }
+		else if (!strcmp(alg, "sha224")) { SHA224_CTX c; sha224_init(&c); c.nblocks = nb; LOAD32(c.state, 8); for (i = 0; i < k; i++) sha224_update(&c, ch[i].p, ch[i].n); sha224_finish(&c, d); dl = 28; }
+		else if (!strcmp(alg, "sha256")) { SHA256_CTX c; sha256_init(&c); c.nblocks = nb; LOAD32(c.state, 8); for (i = 0; i < k; i++) sha256_update(&c, ch[i].p, ch[i].n); sha256_finish(&c, d); dl = 32; }
+		else if (!strcmp(alg, "sha384")) { SHA384_CTX c; sha384_init(&c); c.nblocks = nb; LOAD64(c.state, 8); for (i = 0; i < k; i++) sha384_update(&c, ch[i].p, ch[i].n); sha384_finish(&c, d); dl = 48; }
+		else if (!strcmp(alg, "sha512")) { SHA512_CTX c; sha512_init(&c); c.nblocks = nb; LOAD64(c.state, 8); for (i = 0; i < k; i++) sha512_update(&c, ch[i].p, ch[i].n); sha512_finish(&c, d); dl = 64; }
+		if (dl) puthex(d, dl); else printf("ERR");
+		free(d); free(st.p); free_chunks(ch, k);
+	}
 	else if (!strcmp(w[0], "hmac") && nw == 3) {         /* sm3_hmac_* streaming */
 		buf_t key = hex2buf(w[1]); size_t k = split_chunks(w[2], ch, MAXC), i;
 		SM3_HMAC_CTX c; uint8_t *d = malloc(32);
